@@ -28,7 +28,7 @@ def corpus(ctx):
     # (time limit, n_mat_max_eager) configurations: the real limiter tiny / generous; adversary schedules that decide
     # which timed calls expire; the default and a tiny threshold for "few enough matrices to try the eager encoders first"
     combos = [(0.0005, None), (2.0, None), ('sched:lazy', 2), ('sched:all', None), ('sched:nonlazy', None), ('sched:count', 2),
-              (2.0, 2), ('sched:none', None), ('sched:lazy', None), ('sched:none', 2)]
+              (2.0, 2), ('sched:none', None), ('sched:lazy', None), ('sched:none', 2), ('sched:enum', None)]
     combos += [('sched:mask:%d' % rng.getrandbits(24), (2 if k % 2 else None)) for k in range(4)]
     nd = len(degenerate_settings())
     limits, eagers = [], []
@@ -36,6 +36,12 @@ def corpus(ctx):
         lim, em = combos[i % len(combos)] if i < nd else combos[(i - nd) % len(combos)]
         limits.append(lim)
         eagers.append(em)
+    # every degenerate settings once more with only the enumerating candidates finishing: the last selection stage decides
+    # (under the real tiny limit this outcome is rare and depends on the machine's load)
+    for sd in degenerate_settings():
+        sds.append(sd)
+        limits.append('sched:enum')
+        eagers.append(None)
     return sds, limits, eagers
 
 
